@@ -1,6 +1,7 @@
 package world
 
 import (
+	"os"
 	"context"
 	"fmt"
 	"math/big"
@@ -276,6 +277,7 @@ func (w *World) twinBlock() {
 	tw := block.NewBlock(w.Chain.GetKey(), b.Round)
 	tw.MinerID = b.MinerID
 	tw.SetPreviousBlock(prev)
+	tw.Round = b.Round // SetPreviousBlock resets Round to prev.Round+1; drivers may skip rounds
 	tw.CreationDate = b.CreationDate
 	tw.SetRoundRandomSeed(b.GetRoundRandomSeed())
 	tw.Hash = encryption.Hash("twin:" + b.Hash)
@@ -306,6 +308,9 @@ func (w *World) twinBlock() {
 		if (okA != okB || !sameStatus) && classes {
 			classes = false
 			firstDiff = i + 1
+			if os.Getenv("VERIF_TWIN_DEBUG") != "" {
+				fmt.Fprintf(os.Stderr, "twin diff at %d: fn=%s err=%v status=%d/%d out=%q / %q\n", i, t.FunctionName, err, t.Status, c.Status, t.TransactionOutput, c.TransactionOutput)
+			}
 		}
 	}
 	a := w.snapCached(w.CurState)
